@@ -11,8 +11,11 @@ state of ANY schedule.
   table or empty; both load (C17: `dec_enc`; `store.Read` treats an empty file as "no state"), so a
   new server always starts.
 * `acked_consistent_partial` — **partial** (hypothesis: the kill is not between `Truncate(0)` and
-  `Write`): every hold whose grant was answered and whose release was not is restored, and no hold
-  whose release was answered is.  Operations in flight may go either way.
+  `Write`): every hold whose grant was answered and that has neither left the lock table nor had its
+  lease timer fire is restored, and no hold whose release was answered is.  Operations in flight may
+  go either way.  (The "lease timer fired" exemption came from the trace validation of M7: on that
+  path `LockServer.Unlock` removes the bookkeeping entry and answers before the callback has taken
+  the hold out of the table — the model had no such step and rejected those schedules.)
 * `crash_in_truncate_window` — K3 (known finding): a kill between the two file operations leaves an
   empty file and every acknowledged hold is lost.
 * `crash_overcapacity_file` — K4 (known finding): the table releases the unit before the bookkeeping
@@ -30,8 +33,8 @@ structure Inv (s : St) : Prop where
   emptyU  : s.file = .empty → s.unsaved = true
   bh      : ∀ p ∈ s.book, p ∈ s.held ∨ p ∈ s.ended
   endedNH : ∀ p ∈ s.ended, p ∉ s.held
-  grants  : ∀ p ∈ s.ackGrant, p ∉ s.ended → p ∈ s.book ∧ (∀ hs, s.file = .table hs → p ∈ hs)
-  rels    : ∀ p ∈ s.ackRel, p ∈ s.ended ∧ p ∉ s.book ∧ (∀ hs, s.file = .table hs → p ∉ hs)
+  grants  : ∀ p ∈ s.ackGrant, p ∉ s.ended → p ∉ s.expiring → p ∈ s.book ∧ (∀ hs, s.file = .table hs → p ∈ hs)
+  rels    : ∀ p ∈ s.ackRel, p ∈ s.booked ∧ p ∉ s.book ∧ (∀ hs, s.file = .table hs → p ∉ hs)
 
 theorem init_inv : Inv init := by
   refine ⟨?_, ?_, ?_, ?_, ?_, ?_⟩ <;> simp [init]
@@ -59,7 +62,7 @@ theorem step_inv (s s' : St) (a : Act) (h : Inv s) (hs : step s a = some s') : I
     · rename_i hcond
       simp at hcond
       simp at hs; subst hs
-      have hne : ∀ q ∈ s.ackRel, q ≠ p := fun q hq e => hen q (hrl q hq).1 (e ▸ hcond.2.1)
+      have hne : ∀ q ∈ s.ackRel, q ≠ p := fun q hq e => hcond.2.2.2 (e ▸ (hrl q hq).1)
       refine ⟨?_, ?_, ?_, ?_, ?_, ?_⟩
       · intro h; cases h
       · intro h; simp_all
@@ -67,12 +70,12 @@ theorem step_inv (s s' : St) (a : Act) (h : Inv s) (hs : step s a = some s') : I
         · exact hbh q hq
         · left; rw [hq]; exact hcond.2.1
       · exact hen
-      · intro q hq he
-        obtain ⟨h1, h2⟩ := hgr q hq he
+      · intro q hq he hx
+        obtain ⟨h1, h2⟩ := hgr q hq he hx
         exact ⟨by simp; exact Or.inl h1, h2⟩
       · intro q hq
         obtain ⟨h1, h2, h3⟩ := hrl q hq
-        exact ⟨h1, by simp; exact ⟨h2, hne q hq⟩, h3⟩
+        exact ⟨by simp; exact Or.inr h1, by simp; exact ⟨h2, hne q hq⟩, h3⟩
   | bookDel p =>
     simp only [step] at hs
     split at hs
@@ -85,13 +88,13 @@ theorem step_inv (s s' : St) (a : Act) (h : Inv s) (hs : step s a = some s') : I
       · intro h; simp_all
       · intro q hq; exact hbh q (List.mem_filter.mp hq).1
       · exact hen
-      · intro q hq he
-        obtain ⟨h1, h2⟩ := hgr q hq he
+      · intro q hq he hx
+        obtain ⟨h1, h2⟩ := hgr q hq he hx
         refine ⟨?_, h2⟩
         have hqp : q ≠ p := by
           intro e
           rcases hbh q h1 with hh | hh
-          · exact hcond.2 (e ▸ hh)
+          · exact hx (e ▸ hcond.2 (e ▸ hh))
           · exact he hh
         simp; exact ⟨h1, hqp⟩
       · intro q hq
@@ -121,6 +124,15 @@ theorem step_inv (s s' : St) (a : Act) (h : Inv s) (hs : step s a = some s') : I
     · simp at hs; subst hs
       refine ⟨?_, ?_, ?_, ?_, ?_, ?_⟩ <;> intros <;> simp_all <;> (try (first | done | grind))
     · cases hs
+  | expire p =>
+    simp only [step] at hs
+    split at hs
+    · simp at hs; subst hs
+      refine ⟨hsv, hem, hbh, hen, ?_, hrl⟩
+      intro q hq he hx
+      simp at hx
+      exact hgr q hq he hx.2
+    · cases hs
 
 theorem reachable_inv : ∀ (as : List Act) (s s' : St), Inv s → run s as = some s' → Inv s' := by
   intro as
@@ -148,7 +160,7 @@ theorem empty_image_loads : (Ldlm.Codec.File.load { bytes := [] }).1 = .ok [] :=
 
 /-- **C09 (partial: the kill is not inside a rewrite)** -/
 theorem acked_consistent_partial (as : List Act) (s : St) (hr : run init as = some s) (hout : ¬ inRewrite s) :
-    (∀ p ∈ s.ackGrant, p ∉ s.ended → p ∈ recovered s) ∧ (∀ p ∈ s.ackRel, p ∉ recovered s) := by
+    (∀ p ∈ s.ackGrant, p ∉ s.ended → p ∉ s.expiring → p ∈ recovered s) ∧ (∀ p ∈ s.ackRel, p ∉ recovered s) := by
   have hi := reachable_inv as init s init_inv hr
   unfold inRewrite at hout
   unfold recovered
@@ -156,7 +168,7 @@ theorem acked_consistent_partial (as : List Act) (s : St) (hr : run init as = so
   | empty => exact absurd hf hout
   | table hs =>
     simp only
-    exact ⟨fun p hp he => (hi.grants p hp he).2 hs hf, fun p hp => (hi.rels p hp).2.2 hs hf⟩
+    exact ⟨fun p hp he hx => (hi.grants p hp he hx).2 hs hf, fun p hp => (hi.rels p hp).2.2 hs hf⟩
 
 theorem file_matches_bookkeeping (as : List Act) (s : St) (hr : run init as = some s) (hsaved : s.unsaved = false) :
     s.file = .table s.book :=
